@@ -590,6 +590,28 @@ def rule_r5(ctx: Ctx) -> None:
     ctx.check((at_init - want).is_zero(), init.short, "available at construction = %s" % at_init, "a fresh bounded reader has exactly `%s` bits available, wherever it starts" % lp, init.where(), {k: norm(v) for k, v in init_env.items()})
 
 
+MEMO_DECORATORS = ("lru_cache", "cache", "cached_property", "memoize", "memoized")
+
+
+def memoised_functions(ctx: Ctx, module_short: str) -> List[str]:
+    """functions of the module wrapped in a memo keyed by argument equality (functools.lru_cache / cache, applied as a
+    decorator or by assignment): process-wide state that outlives a call"""
+    repo = ctx.repo
+    m = repo.module(module_short)
+    out = []
+    for fn in repo.all_functions().values():
+        if fn.module is not m:
+            continue
+        for d in fn.node.decorator_list:
+            name = (dotted(d.func) if isinstance(d, ast.Call) else dotted(d)) or ""
+            if name.split(".")[-1] in MEMO_DECORATORS:
+                out.append("%s (@%s)" % (fn.short, name))
+    for n in ast.walk(m.tree):
+        if isinstance(n, ast.Call) and (dotted(n.func) or "").split(".")[-1] in MEMO_DECORATORS and not any(n in f.node.decorator_list or any(n is getattr(d, "func", None) for d in f.node.decorator_list) for f in repo.all_functions().values() if f.module is m):
+            out.append("%s(...) at line %d" % (dotted(n.func), n.lineno))
+    return sorted(set(out))
+
+
 def rule_r4(ctx: Ctx) -> None:
     repo = ctx.repo
     ctx.rule("C07.R4", "no hidden inputs: _serdes has no module-level mutable state, no global statements, no environment / clock / random access", min_instances=1)
@@ -623,7 +645,8 @@ def rule_r4(ctx: Ctx) -> None:
                 mutable.append("%s (written in %s)" % (name, sorted(set(written))))
     globs = [fn.short for fn in repo.all_functions().values() if fn.module is m and any(isinstance(n, (ast.Global, ast.Nonlocal)) for n in ast.walk(fn.node))]
     ext = sorted({dotted(n) for fn in repo.all_functions().values() if fn.module is m for n in ast.walk(fn.node) if isinstance(n, ast.Attribute) and (dotted(n) or "").split(".")[0] in ("os", "time", "random", "sys")})
-    ctx.check(not mutable and not globs and not ext, "_serdes", "module state", "decoding depends on the schema and the bytes only", m.relpath, {"mutable_globals": mutable, "global_statements": globs, "external_state": ext})
+    memo = memoised_functions(ctx, SD)
+    ctx.check(not mutable and not globs and not ext and not memo, "_serdes", "module state", "decoding depends on the schema and the bytes only", m.relpath, {"mutable_globals": mutable, "global_statements": globs, "external_state": ext, "memoised by argument equality (equal types need not have equal content)": memo})
 
 
 def run(ctx: Ctx) -> None:
